@@ -285,54 +285,236 @@ Proof. destruct a; reflexivity. Qed.
 Lemma ign_keeps e : is_last KCancel e = false -> ign_cancel e = e.
 Proof. unfold ign_cancel. intros ->. reflexivity. Qed.
 
+(** ** The shutdown stages: every component is read exactly once *)
+
+Lemma comp_eqb_spec a b : comp_eqb a b = true <-> a = b.
+Proof. destruct a, b; cbn; split; intros H; try reflexivity; try discriminate. Qed.
+Lemma comp_eqb_refl a : comp_eqb a a = true.
+Proof. destruct a; reflexivity. Qed.
+Lemma cmem_In x l : cmem x l = true <-> In x l.
+Proof.
+  unfold cmem. rewrite existsb_exists. split.
+  - intros (y & Hy & E). apply comp_eqb_spec in E. subst. assumption.
+  - intros H. exists x. split; [assumption | apply comp_eqb_refl].
+Qed.
+Lemma cmem_false x l : cmem x l = false <-> ~ In x l.
+Proof. rewrite <- cmem_In. destruct (cmem x l); split; intros H; try reflexivity; try discriminate; try (intros H'; discriminate). exfalso; apply H; reflexivity. Qed.
+
+Definition read_value (o : outcome) (r : comp * bool) : err :=
+  if snd r then ign_cancel (comp_err o (fst r)) else comp_err o (fst r).
+(** finalErr as a function of the reads: the latest read comes first *)
+Definition fin_of (o : outcome) (rs : list (comp * bool)) : err := List.concat (rev (map (read_value o) rs)).
+
+Definition shut_inv (o : outcome) (s : shut) : Prop :=
+  sh_consumed s = rev (map fst (sh_reads s)) /\ NoDup (sh_consumed s) /\ sh_fin s = fin_of o (sh_reads s).
+
+Lemma shut0_inv o : shut_inv o shut0.
+Proof. repeat split; constructor. Qed.
+
+Lemma fin_of_snoc o rs r : fin_of o (rs ++ [r]) = combine (read_value o r) (fin_of o rs).
+Proof. unfold fin_of, combine. rewrite map_app, rev_app_distr. reflexivity. Qed.
+
+Lemma do_read_inv o x ig s : shut_inv o s -> shut_inv o (fst (do_read o x ig s)).
+Proof.
+  intros (Hc & Hn & Hf). unfold do_read. destruct (cmem x (sh_consumed s)) eqn:E; cbn [fst]; [repeat split; assumption|].
+  apply cmem_false in E. repeat split; cbn [sh_consumed sh_reads sh_fin].
+  - rewrite map_app, rev_app_distr. cbn. rewrite Hc. reflexivity.
+  - constructor; assumption.
+  - rewrite fin_of_snoc, Hf. reflexivity.
+Qed.
+Lemma do_read_consumes o x ig s : In x (sh_consumed (fst (do_read o x ig s))).
+Proof.
+  unfold do_read. destruct (cmem x (sh_consumed s)) eqn:E; cbn [fst sh_consumed].
+  - apply cmem_In; assumption.
+  - left; reflexivity.
+Qed.
+Lemma do_read_consumed_mono o x ig s y : In y (sh_consumed s) -> In y (sh_consumed (fst (do_read o x ig s))).
+Proof. unfold do_read. destruct (cmem x (sh_consumed s)); cbn [fst sh_consumed]; [auto | right; assumption]. Qed.
+Lemma do_read_cancelled o x ig s : sh_cancelled (fst (do_read o x ig s)) = sh_cancelled s.
+Proof. unfold do_read. destruct (cmem x (sh_consumed s)); reflexivity. Qed.
+(** the value a read returns is nil for a closed channel, the component's value otherwise *)
+Lemma do_read_value o x ig s : snd (do_read o x ig s) = [] \/ snd (do_read o x ig s) = comp_err o x.
+Proof. unfold do_read. destruct (cmem x (sh_consumed s)); cbn [snd]; auto. Qed.
+
+Lemma cancel_and_read_inv o s x : shut_inv o s -> shut_inv o (cancel_and_read o s x).
+Proof.
+  intros H. unfold cancel_and_read. apply do_read_inv.
+  destruct (cmem x (sh_consumed s)); [assumption|]. destruct H as (Hc & Hn & Hf). repeat split; assumption.
+Qed.
+Lemma cancel_and_read_consumes o s x : In x (sh_consumed (cancel_and_read o s x)).
+Proof. apply do_read_consumes. Qed.
+Lemma cancel_and_read_mono o s x y : In y (sh_consumed s) -> In y (sh_consumed (cancel_and_read o s x)).
+Proof.
+  intros H. unfold cancel_and_read. apply do_read_consumed_mono. destruct (cmem x (sh_consumed s)); assumption.
+Qed.
+Lemma cancel_and_read_cancelled o s x y :
+  In y (sh_cancelled (cancel_and_read o s x)) -> In y (sh_cancelled s) \/ (y = x /\ ~ In x (sh_consumed s)).
+Proof.
+  unfold cancel_and_read. rewrite do_read_cancelled. destruct (cmem x (sh_consumed s)) eqn:E; [auto|].
+  cbn [sh_cancelled]. intros H. apply in_app_or in H. destruct H as [H|[H|[]]]; [left; assumption|].
+  right. split; [symmetry; assumption | apply cmem_false; assumption].
+Qed.
+
+Lemma interrupt_block_inv o l : forall s, shut_inv o s -> shut_inv o (interrupt_block o l s).
+Proof. unfold interrupt_block. induction l as [|x l IH]; cbn [fold_left]; intros s H; [assumption|]. apply IH, cancel_and_read_inv, H. Qed.
+Lemma interrupt_block_mono o l y : forall s, In y (sh_consumed s) -> In y (sh_consumed (interrupt_block o l s)).
+Proof. unfold interrupt_block. induction l as [|x l IH]; cbn [fold_left]; intros s H; [assumption|]. apply IH, cancel_and_read_mono, H. Qed.
+Lemma interrupt_block_consumes o l y : forall s, In y l -> In y (sh_consumed (interrupt_block o l s)).
+Proof.
+  unfold interrupt_block. induction l as [|x l IH]; cbn [fold_left]; intros s H; [destruct H|].
+  destruct H as [->|H]; [|apply IH, H]. apply (interrupt_block_mono o l y), cancel_and_read_consumes.
+Qed.
+Lemma interrupt_block_cancelled o l y : forall s,
+  In y (sh_cancelled (interrupt_block o l s)) -> In y (sh_cancelled s) \/ (In y l /\ ~ In y (sh_consumed s)).
+Proof.
+  unfold interrupt_block. induction l as [|x l IH]; cbn [fold_left]; intros s H; [left; assumption|].
+  apply IH in H. destruct H as [H|[H1 H2]].
+  - apply cancel_and_read_cancelled in H. destruct H as [H|[-> H]]; [left; assumption | right; split; [left; reflexivity | assumption]].
+  - right. split; [right; assumption|]. intros Hc. apply H2, cancel_and_read_mono, Hc.
+Qed.
+
+Lemma stage_inv fixed o own cl : forall fuel watched ch s,
+  shut_inv o s -> shut_inv o (fst (fst (stage fixed fuel o own cl watched ch s))).
+Proof.
+  induction fuel as [|fuel IH]; intros watched ch s H; cbn [stage].
+  - cbn [fst]. apply do_read_inv, H.
+  - destruct (choose ch own watched) as [x ch']. destruct (comp_eqb x own); [cbn [fst]; apply do_read_inv, H|].
+    pose proof (do_read_inv o x false s H) as H1. destruct (do_read o x false s) as [s' v]. cbn [fst] in H1.
+    destruct v as [|k v]; [destruct fixed|]; try (cbn [fst]; apply interrupt_block_inv, H1). apply IH, H1.
+Qed.
+(** a stage ends with its own component read, provided its interrupt block names it *)
+Lemma stage_consumes_own fixed o own cl : In own cl -> forall fuel watched ch s,
+  In own (sh_consumed (fst (fst (stage fixed fuel o own cl watched ch s)))).
+Proof.
+  intros Hcl. induction fuel as [|fuel IH]; intros watched ch s; cbn [stage].
+  - cbn [fst]. apply do_read_consumes.
+  - destruct (choose ch own watched) as [x ch']. destruct (comp_eqb x own); [cbn [fst]; apply do_read_consumes|].
+    destruct (do_read o x false s) as [s' v].
+    destruct v as [|k v]; [destruct fixed|]; try (cbn [fst]; apply interrupt_block_consumes, Hcl). apply IH.
+Qed.
+Lemma stage_mono fixed o own cl y : forall fuel watched ch s,
+  In y (sh_consumed s) -> In y (sh_consumed (fst (fst (stage fixed fuel o own cl watched ch s)))).
+Proof.
+  induction fuel as [|fuel IH]; intros watched ch s H; cbn [stage].
+  - cbn [fst]. apply do_read_consumed_mono, H.
+  - destruct (choose ch own watched) as [x ch']. destruct (comp_eqb x own); [cbn [fst]; apply do_read_consumed_mono, H|].
+    pose proof (do_read_consumed_mono o x false s y H) as H1. destruct (do_read o x false s) as [s' v]. cbn [fst] in H1.
+    destruct v as [|k v]; [destruct fixed|]; try (cbn [fst]; apply interrupt_block_mono, H1). apply IH, H1.
+Qed.
+
+Lemma stage3_inv o ch s : shut_inv o s -> shut_inv o (fst (stage3 o ch s)).
+Proof.
+  intros H. unfold stage3. destruct (choose ch CA [CC]) as [x ch']. destruct (comp_eqb x CA); cbn [fst].
+  - apply do_read_inv, H.
+  - apply interrupt_block_inv, do_read_inv, H.
+Qed.
+Lemma stage3_consumes o ch s : In CA (sh_consumed (fst (stage3 o ch s))).
+Proof.
+  unfold stage3. destruct (choose ch CA [CC]) as [x ch']. destruct (comp_eqb x CA); cbn [fst].
+  - apply do_read_consumes.
+  - apply interrupt_block_consumes. left; reflexivity.
+Qed.
+Lemma stage3_mono o ch s y : In y (sh_consumed s) -> In y (sh_consumed (fst (stage3 o ch s))).
+Proof.
+  intros H. unfold stage3. destruct (choose ch CA [CC]) as [x ch']. destruct (comp_eqb x CA); cbn [fst].
+  - apply do_read_consumed_mono, H.
+  - apply interrupt_block_mono, do_read_consumed_mono, H.
+Qed.
+
+Lemma conduct_run_inv fixed ch o : shut_inv o (conduct_run fixed ch o).
+Proof.
+  unfold conduct_run.
+  pose proof (stage_inv fixed o CP [CP; CS; CA; CC] 4 [CS; CA; CC] ch shut0 (shut0_inv o)) as H1.
+  destruct (stage fixed 4 o CP [CP; CS; CA; CC] [CS; CA; CC] ch shut0) as [[s1 w1] ch1]. cbn [fst] in H1.
+  pose proof (stage_inv fixed o CS [CS; CA; CC] 3 (cremove CS w1) ch1 s1 H1) as H2.
+  destruct (stage fixed 3 o CS [CS; CA; CC] (cremove CS w1) ch1 s1) as [[s2 w2] ch2]. cbn [fst] in H2.
+  pose proof (stage3_inv o ch2 s2 H2) as H3. destruct (stage3 o ch2 s2) as [s3 ch3]. cbn [fst] in H3.
+  apply do_read_inv, H3.
+Qed.
+
+Lemma conduct_run_consumes_all fixed ch o x : In x (sh_consumed (conduct_run fixed ch o)).
+Proof.
+  unfold conduct_run.
+  pose proof (stage_consumes_own fixed o CP [CP; CS; CA; CC] (or_introl eq_refl) 4 [CS; CA; CC] ch shut0) as P1.
+  destruct (stage fixed 4 o CP [CP; CS; CA; CC] [CS; CA; CC] ch shut0) as [[s1 w1] ch1]. cbn [fst] in P1.
+  pose proof (stage_consumes_own fixed o CS [CS; CA; CC] (or_introl eq_refl) 3 (cremove CS w1) ch1 s1) as S2.
+  pose proof (stage_mono fixed o CS [CS; CA; CC] CP 3 (cremove CS w1) ch1 s1 P1) as P2.
+  destruct (stage fixed 3 o CS [CS; CA; CC] (cremove CS w1) ch1 s1) as [[s2 w2] ch2]. cbn [fst] in S2, P2.
+  pose proof (stage3_consumes o ch2 s2) as A3.
+  pose proof (stage3_mono o ch2 s2 CP P2) as P3. pose proof (stage3_mono o ch2 s2 CS S2) as S3.
+  destruct (stage3 o ch2 s2) as [s3 ch3]. cbn [fst] in A3, P3, S3.
+  destruct x; [apply do_read_consumed_mono, P3 | apply do_read_consumed_mono, S3 | apply do_read_consumed_mono, A3 | apply do_read_consumes].
+Qed.
+
+(** Every component's channel is read exactly once that finds its value,
+    whatever the selects choose. *)
+Theorem conduct_reads_each_component_once fixed ch o :
+  NoDup (map fst (sh_reads (conduct_run fixed ch o))) /\ forall x, In x (map fst (sh_reads (conduct_run fixed ch o))).
+Proof.
+  destruct (conduct_run_inv fixed ch o) as (Hc & Hn & _). rewrite Hc in Hn. split.
+  - apply NoDup_rev in Hn. rewrite rev_involutive in Hn. exact Hn.
+  - intros x. pose proof (conduct_run_consumes_all fixed ch o x) as H. rewrite Hc in H. apply in_rev in H. exact H.
+Qed.
+
+Lemma exit_nonzero_concat l : exit_nonzero (List.concat l) = existsb exit_nonzero l.
+Proof.
+  induction l as [|r rs IH]; cbn; [reflexivity|]. fold (combine r (List.concat rs)). rewrite exit_nonzero_app, IH. reflexivity.
+Qed.
+Lemma stages_nonzero fixed ch o :
+  exit_nonzero (stages fixed ch o) = existsb (fun r => exit_nonzero (read_value o r)) (sh_reads (conduct_run fixed ch o)).
+Proof.
+  unfold stages. destruct (conduct_run_inv fixed ch o) as (_ & _ & ->). unfold fin_of.
+  rewrite exit_nonzero_concat.
+  generalize (sh_reads (conduct_run fixed ch o)). intros l.
+  assert (G : forall (f : err -> bool) (m : list err), existsb f (rev m) = existsb f m).
+  { intros f m. induction m as [|a m IH]; cbn; [reflexivity|]. rewrite existsb_app, IH. cbn. rewrite orb_false_r. apply orb_comm. }
+  rewrite G. induction l as [|r l IH]; cbn; [reflexivity|]. rewrite IH. reflexivity.
+Qed.
+
 (** F1: a non-nil audit verdict always reaches conduct's return value. *)
-Theorem funnel_keeps_audit_verdict sc o verdict cleanup :
-  exit_nonzero verdict = true -> exit_nonzero (conduct_result sc o verdict cleanup) = true.
+Theorem funnel_keeps_audit_verdict fixed ch o verdict cleanup :
+  exit_nonzero verdict = true -> exit_nonzero (conduct_result fixed ch o verdict cleanup) = true.
 Proof.
   intros Hv. unfold conduct_result. apply exit_nonzero_app_l.
-  destruct (is_last KAudit (stages sc o)) eqn:E.
-  - destruct (stages sc o); [discriminate | reflexivity].
+  destruct (is_last KAudit (stages fixed ch o)) eqn:E.
+  - destruct (stages fixed ch o); [discriminate | reflexivity].
   - apply exit_nonzero_app_r; assumption.
 Qed.
 
 (** F2: a cleanup failure always does. *)
-Theorem funnel_keeps_cleanup_failure sc o verdict cleanup :
-  exit_nonzero cleanup = true -> exit_nonzero (conduct_result sc o verdict cleanup) = true.
+Theorem funnel_keeps_cleanup_failure fixed ch o verdict cleanup :
+  exit_nonzero cleanup = true -> exit_nonzero (conduct_result fixed ch o verdict cleanup) = true.
 Proof. intros H. unfold conduct_result. apply exit_nonzero_app_r; assumption. Qed.
 
-Definition comp_err (o : outcome) (x : comp) : err :=
-  match x with CP => o_p o | CS => o_s o | CA => o_a o | CC => o_c o end.
-
-(** F3: so does the error of any component, for every order in which the
-    components finish, unless that error presents itself as a cancellation
-    (its last cause is a context cancellation). *)
-Theorem funnel_keeps_component_errors sc o verdict cleanup x :
+(** F3: so does the error of any component, for every choice of the selects,
+    unless that error presents itself as a cancellation (its last cause is a
+    context cancellation). *)
+Theorem funnel_keeps_component_errors fixed ch o verdict cleanup x :
   exit_nonzero (comp_err o x) = true -> is_last KCancel (comp_err o x) = false ->
-  exit_nonzero (conduct_result sc o verdict cleanup) = true.
+  exit_nonzero (conduct_result fixed ch o verdict cleanup) = true.
 Proof.
   intros Hn Hc. unfold conduct_result. apply exit_nonzero_app_l.
-  assert (Hs : exit_nonzero (stages sc o) = true).
-  { destruct x; cbn [comp_err] in *; destruct sc; cbn [stages];
-      rewrite ?exit_nonzero_app, ?(ign_keeps _ Hc), ?Hn, ?orb_true_r; reflexivity. }
-  destruct (is_last KAudit (stages sc o)); [assumption | apply exit_nonzero_app_l; assumption].
+  assert (Hs : exit_nonzero (stages fixed ch o) = true).
+  { rewrite stages_nonzero. apply existsb_exists.
+    destruct (conduct_reads_each_component_once fixed ch o) as (_ & Hall). specialize (Hall x).
+    apply in_map_iff in Hall. destruct Hall as ([y ig] & E & Hin). cbn in E. subst y.
+    exists (x, ig). split; [assumption|]. unfold read_value. cbn [fst snd]. destruct ig; [rewrite (ign_keeps _ Hc)|]; assumption. }
+  destruct (is_last KAudit (stages fixed ch o)); [assumption | apply exit_nonzero_app_l; assumption].
 Qed.
 
 (** F4: and nothing else does: a non-zero status has a cause. *)
-Theorem funnel_no_spurious_foul sc o verdict cleanup :
-  exit_nonzero (conduct_result sc o verdict cleanup) = true ->
+Theorem funnel_no_spurious_foul fixed ch o verdict cleanup :
+  exit_nonzero (conduct_result fixed ch o verdict cleanup) = true ->
   exit_nonzero verdict = true \/ exit_nonzero cleanup = true \/
   exists x, exit_nonzero (comp_err o x) = true.
 Proof.
   unfold conduct_result. rewrite exit_nonzero_app. intros H. apply orb_true_iff in H.
   destruct H as [H|H]; [|right; left; assumption].
-  assert (Hs : exit_nonzero (stages sc o) = true -> exists x, exit_nonzero (comp_err o x) = true).
-  { assert (Hi : forall e, exit_nonzero (ign_cancel e) = true -> exit_nonzero e = true).
-    { intros e. unfold ign_cancel. destruct (is_last KCancel e); [discriminate | auto]. }
-    destruct sc; cbn [stages]; rewrite !exit_nonzero_app; intros Hx;
-      repeat (apply orb_true_iff in Hx; destruct Hx as [Hx|Hx]);
-      try apply Hi in Hx;
-      first [ exists CP; exact Hx | exists CS; exact Hx | exists CA; exact Hx | exists CC; exact Hx ]. }
-  destruct (is_last KAudit (stages sc o)).
+  assert (Hs : exit_nonzero (stages fixed ch o) = true -> exists x, exit_nonzero (comp_err o x) = true).
+  { rewrite stages_nonzero. intros Hx. apply existsb_exists in Hx. destruct Hx as ([x ig] & _ & Hx).
+    exists x. unfold read_value in Hx. cbn [fst snd] in Hx. destruct ig; [|assumption].
+    unfold ign_cancel in Hx. destruct (is_last KCancel (comp_err o x)); [discriminate | assumption]. }
+  destruct (is_last KAudit (stages fixed ch o)).
   - right; right. apply Hs; assumption.
   - rewrite exit_nonzero_app in H. apply orb_true_iff in H. destruct H as [H|H]; [right; right; apply Hs; assumption | left; assumption].
 Qed.
@@ -343,10 +525,81 @@ Qed.
     values, [audit violation; cancellation]; the deferred re-check of F1 is
     what restores the verdict.) *)
 Theorem funnel_drops_cancel_last_refuted :
-  exists sc o, exit_nonzero (o_a o) = true /\ existsb (fun k => match k with KReal => true | _ => false end) (o_a o) = true /\
-               conduct_result sc o [] [] = [].
+  exists ch o, exit_nonzero (o_a o) = true /\ existsb (fun k => match k with KReal => true | _ => false end) (o_a o) = true /\
+               conduct_result true ch o [] [] = [].
 Proof.
-  exists SchS, {| o_p := []; o_s := []; o_a := [KReal; KCancel]; o_c := [] |}. vm_compute. repeat split.
+  exists [CP; CS; CC], {| o_p := []; o_s := []; o_a := [KReal; KCancel]; o_c := [] |}. vm_compute. repeat split.
+Qed.
+
+(** ** The collector is never cancelled in a play without failures
+
+    conduct cancels a component's context in the interrupt block of a stage.
+    For the collector that drops the reports still queued for it, and with
+    them the verdict.  In the code as it is now, that only happens when
+    another component has delivered an error. *)
+Lemma stage_cancelled_cc o own cl : forall fuel watched ch s,
+  In CC (sh_cancelled (fst (fst (stage true fuel o own cl watched ch s)))) ->
+  In CC (sh_cancelled s) \/ exists x, x <> CC /\ comp_err o x <> [].
+Proof.
+  induction fuel as [|fuel IH]; intros watched ch s; cbn [stage].
+  - cbn [fst]. rewrite do_read_cancelled. auto.
+  - destruct (choose ch own watched) as [x ch']. destruct (comp_eqb x own); [cbn [fst]; rewrite do_read_cancelled; auto|].
+    pose proof (do_read_cancelled o x false s) as Hk. pose proof (do_read_value o x false s) as Hv.
+    pose proof (do_read_consumes o x false s) as Hx.
+    destruct (do_read o x false s) as [s' v]. cbn [fst snd] in Hk, Hv, Hx.
+    destruct v as [|k v].
+    + intros H. apply IH in H. rewrite Hk in H. exact H.
+    + cbn [fst]. intros H. apply interrupt_block_cancelled in H. rewrite Hk in H. destruct H as [H|[_ H]]; [left; exact H|].
+      right. exists x. split.
+      * intros ->. apply H, Hx.
+      * destruct Hv as [Hv|Hv]; [discriminate|]. rewrite <- Hv. discriminate.
+Qed.
+Lemma stage3_cancelled_cc o ch s : In CC (sh_cancelled (fst (stage3 o ch s))) -> In CC (sh_cancelled s).
+Proof.
+  unfold stage3. destruct (choose ch CA [CC]) as [x ch']. destruct (comp_eqb x CA); cbn [fst].
+  - rewrite do_read_cancelled. auto.
+  - intros H. apply interrupt_block_cancelled in H. rewrite do_read_cancelled in H. destruct H as [H|[_ H]]; [exact H|].
+    exfalso. apply H, do_read_consumes.
+Qed.
+
+Theorem collector_cancelled_only_after_a_failure ch o :
+  In CC (sh_cancelled (conduct_run true ch o)) -> exists x, x <> CC /\ comp_err o x <> [].
+Proof.
+  unfold conduct_run.
+  pose proof (stage_cancelled_cc o CP [CP; CS; CA; CC] 4 [CS; CA; CC] ch shut0) as H1.
+  destruct (stage true 4 o CP [CP; CS; CA; CC] [CS; CA; CC] ch shut0) as [[s1 w1] ch1]. cbn [fst] in H1.
+  pose proof (stage_cancelled_cc o CS [CS; CA; CC] 3 (cremove CS w1) ch1 s1) as H2.
+  destruct (stage true 3 o CS [CS; CA; CC] (cremove CS w1) ch1 s1) as [[s2 w2] ch2]. cbn [fst] in H2.
+  pose proof (stage3_cancelled_cc o ch2 s2) as H3. destruct (stage3 o ch2 s2) as [s3 ch3]. cbn [fst] in H3.
+  rewrite do_read_cancelled. intros H. apply H3 in H. apply H2 in H. destruct H as [H|H]; [|exact H].
+  apply H1 in H. destruct H as [[]|H]. exact H.
+Qed.
+
+(** In the pinned code this was false: the audition ending (without error)
+    before the spotlight supervisor had reported made the second stage cancel
+    the collector. *)
+Theorem pinned_code_cancelled_the_collector_refuted :
+  exists ch o, o_p o = [] /\ o_s o = [] /\ o_a o = [] /\ In CC (sh_cancelled (conduct_run false ch o)).
+Proof. exists [CP; CA], {| o_p := []; o_s := []; o_a := []; o_c := [] |}. vm_compute. repeat split. right. left. reflexivity. Qed.
+
+(** End to end, for a play whose commands do not fail: whatever the selects
+    choose, the collector is left to process every report and the exit status
+    is the verdict over all of them. *)
+Definition verdict_err (cfg : list (string * fc)) (t : tally) : err := if fouled cfg t then [KAudit] else [].
+Theorem failure_free_play_exits_by_the_verdict ch cfg rs t st :
+  collector_run cfg false tally0 rs = (t, st) ->
+  let o := {| o_p := []; o_s := []; o_a := []; o_c := verdict_err cfg t |} in
+  ~ In CC (sh_cancelled (conduct_run true ch o)) /\
+  exit_nonzero (conduct_result true ch o (verdict_err cfg t) []) = fouled cfg t.
+Proof.
+  intros _ o. split.
+  - intros H. apply collector_cancelled_only_after_a_failure in H. destruct H as (x & Hx & Hv).
+    destruct x; cbn in Hv; congruence.
+  - unfold verdict_err in *. destruct (fouled cfg t) eqn:F.
+    + apply funnel_keeps_audit_verdict. reflexivity.
+    + destruct (exit_nonzero (conduct_result true ch o [] [])) eqn:E; [|reflexivity].
+      apply funnel_no_spurious_foul in E. destruct E as [E|[E|(x & E)]]; try discriminate.
+      destruct x; cbn in E; try discriminate; try (subst o; cbn in E; rewrite F in E; discriminate).
 Qed.
 
 (** collectErrors drops no failure: the combined error is non-nil iff some
